@@ -43,7 +43,17 @@ def run(ctx):
         refine.refine_batch(ctx, ctx.size(120, 1500), force=FORCE, pid=PID, name="trace-refinement(Tree.step vs DemeTree.run)"),
         runs.minimize_slice(ctx, PID, ctx.size(12, 150)),
         runs.monitor_batch(ctx, PID, ctx.size(250, 3000), force=FORCE),
+        # local methods that do not keep their iterates inside the bounds they are given (BFGS, CG, SLSQP's
+        # line search) on an objective that descends towards a corner of the box: whatever the deme records
+        # or evaluates must be inside the box all the same
+        refine.refine_batch(ctx, ctx.size(30, 300), salt=73, force=_unbounded_local, pid=PID, name="trace-refinement(local leaves with BFGS / CG / SLSQP on a slope towards a corner)"),
+        runs.monitor_batch(ctx, PID, ctx.size(40, 400), salt=75, name="traced-runs-monitor-C01(local leaves with BFGS / CG / SLSQP on a slope towards a corner)", force=_unbounded_local),
     ]
+
+
+def _unbounded_local(rng):
+    return {"nlev": 2, "engines": {0: ["sea", "de", "ga", "shade", "lhs"], 1: ["local"]}, "objective": "slope",
+            "local_methods": ["BFGS", "CG", "SLSQP", "BFGS"], "gsc": {"kind": "MetaepochLimit", "limit": int(rng.integers(3, 7))}}
 
 
 def search(ctx, broken):
